@@ -135,7 +135,7 @@ theorem objKey_isSome (fields : List JVal) (hf : fields.all isStr = true) (kvs :
     | nil => exact ⟨_, rfl⟩
     | cons g gs =>
       have : objKey (.str s :: g :: gs) kvs =
-          (objKey (g :: gs) kvs).map (fun r => (pyStr ((lookup s kvs).getD .null)).trimAscii.toString ++ "$" ++ r) := rfl
+          (objKey (g :: gs) kvs).map (fun r => pyStrip (pyStr ((lookup s kvs).getD .null)) ++ "$" ++ r) := rfl
       rw [this, hk]; exact ⟨_, rfl⟩
 
 theorem keyedDict_isSome (fields : List JVal) (hf : fields.all isStr = true) (xs : List JVal) :
@@ -272,5 +272,130 @@ theorem la_lookup (fields : List JVal) (lav : JVal) (l : Option (List (String ×
         exact (laMember_null fields key xs (by simpa using hk) ho).symm
   · simp only [ho, Bool.false_eq_true, ↓reduceIte, Option.some.injEq] at h; subst h
     simp [laMembers, ho, laMember, lookup]
+
+/-! ## one step of the loops, by scenario -/
+
+section steps
+variable (d : Dirs) (akvs : List (String × JVal)) (la : JVal) (k : String) (tv : JVal)
+  (rest : List (String × JVal))
+
+theorem vmO_cons_skip (hs : skippedKey k = true) :
+    vmO d akvs la ((k, tv) :: rest) = vmO d akvs la rest := by
+  rw [vmO.eq_2]; simp only [hs, ↓reduceIte, Res.join_ok_left]
+
+theorem vmO_cons_junkRaise (hs : skippedKey k = false) (h1 : laAt la k = .junkRaise) :
+    vmO d akvs la ((k, tv) :: rest) = Res.raised.join (vmO d akvs la rest) := by
+  rw [vmO.eq_2]; simp only [hs, Bool.false_eq_true, ↓reduceIte, h1]
+
+theorem vmO_cons_junkIn (hs : skippedKey k = false) (h1 : laAt la k = .junkIn) :
+    vmO d akvs la ((k, tv) :: rest) =
+      (if !d.lastApplied.contains k && (lookup k akvs).isNone then Res.differ else Res.raised).join
+        (vmO d akvs la rest) := by
+  rw [vmO.eq_2]; simp only [hs, Bool.false_eq_true, ↓reduceIte, h1]
+
+theorem vmO_cons_missing (hs : skippedKey k = false) {lav : JVal} (h1 : laAt la k = .val lav)
+    (h2 : cmpValue d k akvs lav = none) :
+    vmO d akvs la ((k, tv) :: rest) = Res.differ.join (vmO d akvs la rest) := by
+  rw [vmO.eq_2]; simp only [hs, Bool.false_eq_true, ↓reduceIte, h1, h2]
+
+theorem vmO_cons_plain (hs : skippedKey k = false) {lav cv : JVal} (h1 : laAt la k = .val lav)
+    (h2 : cmpValue d k akvs lav = some cv) (h3 : fieldsFor k d.asMap = none) :
+    vmO d akvs la ((k, tv) :: rest) =
+      (validateMatch tv cv lav (d.asSet.contains k)).join (vmO d akvs la rest) := by
+  rw [vmO.eq_2]; simp only [hs, Bool.false_eq_true, ↓reduceIte, h1, h2, h3]
+
+theorem vmO_cons_keyed (hs : skippedKey k = false) {lav cv : JVal} {fields tms : List JVal}
+    (h1 : laAt la k = .val lav) (h2 : cmpValue d k akvs lav = some cv)
+    (h3 : fieldsFor k d.asMap = some fields) (h4 : allObj tms = true) :
+    vmO d akvs la ((k, .arr tms) :: rest) =
+      (keyedDispatch (keyedDict fields tms) (listToObject fields cv) (listToObject fields lav)
+        fun adict ldict => vmK fields adict ldict tms).join (vmO d akvs la rest) := by
+  rw [vmO.eq_2]; simp only [hs, Bool.false_eq_true, ↓reduceIte, h1, h2, h3, h4]
+
+theorem vmO_cons_keyedNone (hs : skippedKey k = false) {lav cv : JVal} {fields : List JVal}
+    (h1 : laAt la k = .val lav) (h2 : cmpValue d k akvs lav = some cv)
+    (h3 : fieldsFor k d.asMap = some fields)
+    (h4 : ∀ tms, tv = .arr tms → allObj tms = false) :
+    vmO d akvs la ((k, tv) :: rest) = (keyedNone fields cv lav).join (vmO d akvs la rest) := by
+  cases tv <;> rw [vmO.eq_2] <;> simp only [hs, Bool.false_eq_true, ↓reduceIte, h1, h2, h3]
+  rename_i tms
+  simp [h4 tms rfl]
+
+variable (m : Mode) (lkvs lakvs : List (String × JVal))
+
+theorem meetsO_cons_dir (hd : isDirective k = true) :
+    meetsO m d lkvs lakvs ((k, tv) :: rest) = meetsO m d lkvs lakvs rest := by
+  rw [meetsO.eq_2]; simp only [hd, ↓reduceIte, Bool.true_and]
+
+theorem meetsO_cons_excl (hx : (k == ownerReferences || d.lastApplied.contains k) = true) :
+    meetsO .excl d lkvs lakvs ((k, tv) :: rest) = meetsO .excl d lkvs lakvs rest := by
+  by_cases hd : isDirective k = true
+  · exact meetsO_cons_dir d k tv rest .excl lkvs lakvs hd
+  · rw [meetsO.eq_2]; simp only [hd, Bool.false_eq_true, ↓reduceIte, hx, beq_self_eq_true, Bool.and_self, Bool.true_and]
+
+/-- the binding is really compared in this mode -/
+def compared (m : Mode) (d : Dirs) (k : String) : Bool :=
+  !isDirective k && !(m == .excl && (k == ownerReferences || d.lastApplied.contains k))
+
+theorem meetsO_cons_missing (hc : compared m d k = true) (h2 : cmpValue d k lkvs (laVal lakvs k) = none) :
+    meetsO m d lkvs lakvs ((k, tv) :: rest) = false := by
+  simp only [compared, Bool.and_eq_true, Bool.not_eq_true'] at hc
+  rw [meetsO.eq_2]; simp only [hc.1, Bool.false_eq_true, ↓reduceIte, hc.2, h2, Bool.false_and]
+
+theorem meetsO_cons_plain (hc : compared m d k = true) {cv : JVal}
+    (h2 : cmpValue d k lkvs (laVal lakvs k) = some cv) (h3 : fieldsFor k d.asMap = none) :
+    meetsO m d lkvs lakvs ((k, tv) :: rest) =
+      ((if d.asSet.contains k && isArr tv then setSpecOf tv cv
+        else meetsB m tv cv (laVal lakvs k)) && meetsO m d lkvs lakvs rest) := by
+  simp only [compared, Bool.and_eq_true, Bool.not_eq_true'] at hc
+  rw [meetsO.eq_2]; simp only [hc.1, Bool.false_eq_true, ↓reduceIte, hc.2, h2, h3]
+
+theorem meetsO_cons_keyed (hc : compared m d k = true) {fields tms lms : List JVal}
+    (h2 : cmpValue d k lkvs (laVal lakvs k) = some (.arr lms)) (h3 : fieldsFor k d.asMap = some fields) :
+    meetsO m d lkvs lakvs ((k, .arr tms) :: rest) =
+      (((m == .excl || allObj lms) && meetsK m fields lms (laMembers (laVal lakvs k)) tms) &&
+        meetsO m d lkvs lakvs rest) := by
+  simp only [compared, Bool.and_eq_true, Bool.not_eq_true'] at hc
+  rw [meetsO.eq_2]; simp only [hc.1, Bool.false_eq_true, ↓reduceIte, hc.2, h2, h3]
+
+theorem meetsO_cons_keyedBad (hc : compared m d k = true) {cv : JVal} {fields : List JVal}
+    (h2 : cmpValue d k lkvs (laVal lakvs k) = some cv) (h3 : fieldsFor k d.asMap = some fields)
+    (h4 : isArr tv = false ∨ isArr cv = false) :
+    meetsO m d lkvs lakvs ((k, tv) :: rest) = false := by
+  simp only [compared, Bool.and_eq_true, Bool.not_eq_true'] at hc
+  rw [meetsO.eq_2]; simp only [hc.1, Bool.false_eq_true, ↓reduceIte, hc.2, h2, h3]
+  cases tv <;> cases cv <;> simp_all [isArr]
+
+end steps
+
+theorem subsetBy_congr (f g : JVal → JVal → Bool) (xs ys : List JVal)
+    (h : ∀ x ∈ xs, ∀ y ∈ ys, f x y = g x y) : subsetBy f xs ys = subsetBy g xs ys := by
+  simp only [subsetBy]
+  induction xs with
+  | nil => rfl
+  | cons x xs ih =>
+    simp only [List.all_cons]
+    rw [ih (fun a ha => h a (List.mem_cons_of_mem _ ha))]
+    congr 1
+    have hx := h x (List.mem_cons_self ..)
+    clear ih h
+    induction ys with
+    | nil => rfl
+    | cons y ys ih2 =>
+      simp only [List.any_cons]
+      rw [hx y (List.mem_cons_self ..), ih2 (fun b hb => hx b (List.mem_cons_of_mem _ hb))]
+
+theorem meetsL_length (m : Mode) : ∀ (txs lxs items : List JVal), meetsL m txs lxs items = true →
+    txs.length = lxs.length := by
+  intro txs
+  induction txs with
+  | nil => intro lxs items h; cases lxs <;> simp_all [meetsL.eq_1, meetsL.eq_3]
+  | cons t ts ih =>
+    intro lxs items h
+    cases lxs with
+    | nil => rw [meetsL.eq_3] at h <;> simp at h ⊢
+    | cons l ls =>
+      simp only [meetsL.eq_2, Bool.and_eq_true] at h
+      simp [ih ls _ h.2]
 
 end Koreo.Compare
